@@ -148,7 +148,7 @@ chk('C13', 'model_checking',
     'Topology.tla judges every state recorded after every TopologyConstraints::solve() of axis-alternating layout steps (the sequence ColaTopologyAddon::moveTo performs): nodes do not overlap, no segment '
     'meets the interior of a node other than its end nodes (separating-axis test on the 1/16 lattice), paths keep their end nodes, every bend sits on a corner of its node; and for every single-axis step the '
     'number of crossings of each edge with each node\'s centre line on either side of the centre is unchanged -- which is exactly what pulling an edge through a node would flip. After the drag, one node (mostly the dragged one, whose corners now carry bends) is resized through topology::applyResizes and the resulting state is judged by the state clauses.',
-    'Straight initial edges that clear all other nodes; one node dragged with weight 10000, in 40% of the scenes followed by a drag of a second node (a new TopologyConstraints instance per move, as ColaTopologyAddon builds them); 4..9 nodes, plus a family of two abutting nodes with an edge through the gap between their facing corners. Motion inside one solve() is not observed. F62 (an edge in the zero-width gap between abutting nodes ends in a failed library assertion) is a known finding.',
+    'Initial edges are straight and clear all other nodes, except in the wrapped family (an edge that starts bent round two corners of each of two nodes; one node is then raised exactly onto the line of the other and one slides along it); one node dragged with weight 10000, in 40% of the scenes followed by a drag of a second node (a new TopologyConstraints instance per move, as ColaTopologyAddon builds them); 4..9 nodes, plus a family of two abutting nodes with an edge through the gap between their facing corners. Motion inside one solve() is not observed. F62 (an edge in the zero-width gap between abutting nodes ends in a failed library assertion, keyed by configuration, asserting function and the reason the library prints) is a known finding.',
     'TLA+ state invariants + single-axis step property; record validation of solver steps', '4/C13')
 chk('C14', 'model_checking',
     'HolaPipeline.tla judges the graph handed back by every doHOLA() run on the 1/64 lattice: same node ids and edge set, sizes unchanged, no two nodes overlapping, every route made of axis-parallel '
